@@ -14,6 +14,9 @@ type luaDecoder struct {
 	reader   io.Reader
 	finished bool
 	prefs    LuaPreferences
+	// tables being converted right now, to notice a table that contains itself
+	tablesInProgress map[*lua.LTable]bool
+	cyclicTable      bool
 }
 
 func NewLuaDecoder(prefs LuaPreferences) Decoder {
@@ -94,6 +97,14 @@ func (dec *luaDecoder) convertToYamlNode(ls *lua.LState, lv lua.LValue) *Candida
 			Value: lv.String(),
 		}
 	case lua.LTTable:
+		t := lv.(*lua.LTable)
+		if dec.tablesInProgress[t] {
+			// the table contains itself: converting it would never end
+			dec.cyclicTable = true
+			return &CandidateNode{Kind: ScalarNode, Tag: "!!null", Value: "null"}
+		}
+		dec.tablesInProgress[t] = true
+		defer delete(dec.tablesInProgress, t)
 		// Simultaneously create a sequence and a map, pick which one to return
 		// based on whether all keys were consecutive integers
 		i := 1
@@ -105,7 +116,6 @@ func (dec *luaDecoder) convertToYamlNode(ls *lua.LState, lv lua.LValue) *Candida
 			Kind: MappingNode,
 			Tag:  "!!map",
 		}
-		t := lv.(*lua.LTable)
 		k, v := ls.Next(t, lua.LNil)
 		for k != lua.LNil {
 			if ki, ok := k.(lua.LNumber); i != 0 && ok && math.Mod(float64(ki), 1) == 0 && int(ki) == i {
@@ -160,7 +170,12 @@ func (dec *luaDecoder) Decode() (*CandidateNode, error) {
 	if err != nil {
 		return nil, err
 	}
+	dec.tablesInProgress = map[*lua.LTable]bool{}
+	dec.cyclicTable = false
 	firstNode := dec.decideTopLevelNode(ls)
 	dec.finished = true
+	if dec.cyclicTable {
+		return nil, fmt.Errorf("cannot convert a lua table that contains itself")
+	}
 	return firstNode, nil
 }
